@@ -1,5 +1,6 @@
 """C01: 1D construction (h1 facade, calculate_1d_frequencies, extract_*).  Bounded: data length and bin count are
 fixed small numbers per configuration, contents (values, weights, edges, gaps) are symbolic."""
+import numpy as np
 from pyvc.vc import contract, ensures, raises
 from pyvc.spec import *
 from .common import *
